@@ -106,16 +106,19 @@ Theorem C03_refuted_unswapped_target : refutes l1_pair k5_unswapped_target 5.
 Proof. exact C03_refuted_unswapped_target. Qed.
 Print Assumptions C03_refuted_unswapped_target.
 
-(* K4 (liveness, reported for C08 / C20): an error right after acquire_lease
-   leaks the renewal task — after any number of renewal periods the lease is
-   still live and refuses every group that mentions one of its chunks. *)
-Theorem C03_lease_leaked_and_renewed_forever :
-  forall (local : bool) (n : nat) (g : list path),
-  let s := run (rounds (S n) 0 1) (run k4_job_error (two_l0 local)) in
-  quiescent s = true /\
-  ((In 1 g \/ In 2 g) -> lease_conflict (s_clock s) (drop_expired (s_clock s) (s_leases s)) g = true).
-Proof. exact C03_K4_lease_leaked_and_renewed_forever. Qed.
-Print Assumptions C03_lease_leaked_and_renewed_forever.
+(* K4 (liveness, relevant to C08 / C20; repaired by fix 00081bd): every request
+   whose error leaves the cycle with `?` stops the renewal task of the
+   abandoned lease and releases the concurrency slot — before the repair the
+   lease was renewed for ever and the chunks were never compacted again. *)
+Theorem C03_error_path_stops_renewal :
+  forall (s : state) (c : cid) (f : fault) (k a : N),
+  snd (step s (LStep c f)) = (k, a, 1) ->
+  let s' := fst (step s (LStep c f)) in
+  p_pc (get_proc s' c) = Idle /\
+  (forall l, lease_of_pc (p_pc (get_proc s c)) = Some l -> ~ In l (p_renew (get_proc s' c))) /\
+  p_active (get_proc s' c) = p_active (get_proc s c) - 1.
+Proof. exact error_path_stops_renewal. Qed.
+Print Assumptions C03_error_path_stops_renewal.
 
 (* the reduced catalog of this model is the level projection of the catalog
    model of C07 / C02 *)
